@@ -17,25 +17,44 @@ BND = ("xdim,ydim in 1..4, start in -1..4, x and y strides independent in 0..3 (
 for n, cs in ((1, 1), (1, 2), (3, 1)):
     d = [f"RW_NCOMP={n}", f"RW_CS={cs}"]
     b = BND.format(ps=n * cs, n=n, cs=cs)
-    ob(f"GRreadimage_addr_p{n * cs}", "C09", entry="h_GRreadimage", enforce="GRreadimage", mode="bounded", bound=b + "; request inside the image",
-       defines=d, unwind=4, **RW)
+    for cv in (0, 1):
+        ob(f"GRreadimage_addr_p{n * cs}_c{cv}", "C09", entry="h_GRreadimage", enforce="GRreadimage", mode="bounded",
+           bound=b + f"; request inside the image; image with data; number-type conversion {'needed' if cv else 'not needed'}",
+           defines=d + ["RW_HASDATA=1", f"RW_CONV={cv}"], unwind=4, **RW)
     ob(f"GRwriteimage_addr_p{n * cs}", "C09", entry="h_GRwriteimage", enforce="GRwriteimage", mode="bounded",
-       bound=b + "; request inside the image; existing image, or new image without filling", defines=d + ["RW_NOFILL"], unwind=4, **RW)
+       bound=b + "; request inside the image; image with data", defines=d + ["RW_HASDATA=1"], unwind=4, **RW)
+    ob(f"GRwriteimage_new_p{n * cs}", "C09", entry="h_GRwriteimage", enforce="GRwriteimage", mode="bounded",
+       bound=b + "; request inside the image; first write of a new image without filling", defines=d + ["RW_HASDATA=0", "RW_FILLIMG=0"],
+       unwind=4, **RW)
     ob(f"GRwriteimage_fill_p{n * cs}", "C09", entry="h_GRwriteimage", enforce="GRwriteimage", mode="bounded",
-       bound=b + "; request inside the image; first write of a new image with filling", defines=d + ["RW_FILL"], unwind=5, **RW)
+       bound=b + "; request inside the image; first write of a new image with filling", defines=d + ["RW_HASDATA=0", "RW_FILLIMG=1"],
+       unwind=5, tier="thorough", **RW)
+B1 = BND.format(ps=1, n=1, cs=1)
+ob("GRreadimage_nodata", "C09", entry="h_GRreadimage", enforce="GRreadimage", mode="bounded",
+   bound=BND.format(ps=3, n=3, cs=1) + "; request inside the image; image without data (fill value delivered)",
+   defines=["RW_NCOMP=3", "RW_CS=1", "RW_HASDATA=0"], unwind=4, **RW)
 # requests reaching outside the image / invalid arguments: refused before any I/O
 ob("GRreadimage_outside", "C09", entry="h_GRreadimage", enforce="GRreadimage", mode="bounded",
-   bound=BND.format(ps=1, n=1, cs=1) + "; request reaching outside the image", defines=["RW_OUTSIDE"], unwind=4, **RW)
+   bound=B1 + "; request reaching outside the image", defines=["RW_OUTSIDE", "RW_HASDATA=1", "RW_CONV=0"], unwind=4, **RW)
 ob("GRwriteimage_outside", "C09", entry="h_GRwriteimage", enforce="GRwriteimage", mode="bounded",
-   bound=BND.format(ps=1, n=1, cs=1) + "; request reaching outside the image", defines=["RW_OUTSIDE"], unwind=5, **RW)
+   bound=B1 + "; request reaching outside the image", defines=["RW_OUTSIDE", "RW_HASDATA=1", "RW_CONV=0"], unwind=4, **RW)
 ob("GRreadimage_badargs", "C09", entry="h_GRreadimage", enforce="GRreadimage", mode="bounded",
-   bound=BND.format(ps=1, n=1, cs=1) + "; invalid id / start / stride / count", defines=["RW_BADARGS"], unwind=4, **RW)
+   bound=B1 + "; invalid start / stride / count", defines=["RW_BADARGS", "RW_HASDATA=1", "RW_CONV=0"], unwind=4, **RW)
 ob("GRwriteimage_badargs", "C09", entry="h_GRwriteimage", enforce="GRwriteimage", mode="bounded",
-   bound=BND.format(ps=1, n=1, cs=1) + "; invalid id / start / stride / count", defines=["RW_BADARGS"], unwind=5, **RW)
-# read into line / component interlace: real GRIil_convert behind the addressing
+   bound=B1 + "; invalid start / stride / count", defines=["RW_BADARGS", "RW_HASDATA=1", "RW_CONV=0"], unwind=4, **RW)
+for k, bid in (("grid", "RW_GRID"), ("unknown", "0x60000009")):
+    ob(f"GRreadimage_badid_{k}", "C09", entry="h_GRreadimage", enforce="GRreadimage", mode="bounded",
+       bound=B1 + f"; id = {bid} (not an image id)", defines=["RW_BADARGS", f"RW_BADID={bid}", "RW_HASDATA=1", "RW_CONV=0"], unwind=4, **RW)
+    ob(f"GRwriteimage_badid_{k}", "C09", entry="h_GRwriteimage", enforce="GRwriteimage", mode="bounded",
+       bound=B1 + f"; id = {bid} (not an image id)", defines=["RW_BADARGS", f"RW_BADID={bid}", "RW_HASDATA=1", "RW_CONV=0"], unwind=4, **RW)
+# read into line / component interlace: GRIil_convert (by contract) behind the addressing
 ob("GRreadimage_il_p2", "C09", entry="h_GRreadimage", enforce="GRreadimage", mode="bounded",
-   bound=BND.format(ps=2, n=2, cs=1) + "; request inside the image; all three read interlaces", defines=["RW_NCOMP=2", "RW_CS=1", "RW_IL"],
-   unwind=4, **RW)
+   bound=BND.format(ps=2, n=2, cs=1) + "; request inside the image; image with data; all three read interlaces",
+   defines=["RW_NCOMP=2", "RW_CS=1", "RW_IL", "RW_HASDATA=1"], unwind=4, **RW)
+# GRIil_convert can fail (no memory for its work arrays); the callers must not report success then
+ob("GRreadimage_il_oom", "C09", entry="h_GRreadimage", enforce="GRreadimage", mode="bounded",
+   bound=BND.format(ps=2, n=2, cs=1) + "; request inside the image; image with data; all three read interlaces; GRIil_convert may fail",
+   defines=["RW_NCOMP=2", "RW_CS=1", "RW_IL", "RW_HASDATA=1", "RW_ILOOM"], unwind=4, **RW)
 
 # ---- palettes (loop-free: proved)
 LT = dict(unit="mfgr_rw_u.c", file="hdf/src/mfgr.c", cex_unwind=3,
